@@ -6,7 +6,7 @@ from core import (BA, call_matches, callee_paths, op_local, op_place, op_const, 
                   rvalue_places, field_writes, taint, str_consts, decode_bytestr, decode_fmt_template, closure_sites)
 from facts import strip_generics
 from rules import common, dirt
-from rules.C04 import MUTATORS, is_mutator_call
+from rules.C04 import MUTATORS, is_mutator_call, recorder_roles, pre_verdict_stats
 from rules.C06 import backward_direct
 
 EXPLANATION = (
@@ -98,7 +98,8 @@ def run(ctx):
     ctx.ob("R11.1", "%s|build-steps-dominated-by-guard" % SS.key, ok, where=ctx.where(SS, E), detail="zap_deps1, find_do_file and the fork are all dominated by the guard")
 
     # ---- R11.2
-    det = ba.switches_on_call(r"state::Stamp::detect_override")
+    # (the result of detect_override may reach its test through a local: `let overridden = sf.is_override || detect_override(..)`)
+    det = common.switches_on_call_value(SS, r"state::Stamp::detect_override")
     so = ba.calls(r"state::File::set_override")
     saves = ba.calls(r"state::File::save")
     if ctx.ob("R11.2", "%s|detect_override-test" % SS.key, len(det) == 1 and len(so) == 1, where=SS.span, detail="detect_override test and set_override call located"):
@@ -172,8 +173,9 @@ def run(ctx):
     none_arm = None
     for sw in sorted(ba.live):
         es = ba.enum_switch(sw)
-        if es and SS.locals[es[0]["l"]].startswith("core::option::Option<paths::DoFile>"):
-            none_arm = es[1].get(0)
+        if es and SS.locals[es[0]["l"]].startswith("core::option::Option<paths::DoFile>") and not es[0]["p"]:
+            # `match` lists both variants; `let Some(df) = .. else {..}` / `if let` list one and leave the other to `otherwise`
+            none_arm = es[1][0] if 0 in es[1] else (es[2] if 1 in es[1] else None)
     if ctx.ob("R11.4", "%s|no-rule-arm" % SS.key, none_arm is not None, where=SS.span, detail="the `None` arm of find_do_file's result located"):
         ex2 = [(sw, t_t, f_t) for (sw, t_t, f_t, cbb) in ba.switches_on_call(r"std::path::Path::exists") if ba.path([none_arm], [sw], incl=True) and sw != E and not ba.path([sw], forks, incl=True)]
         ok = False
@@ -185,60 +187,36 @@ def run(ctx):
         ctx.ob("R11.4", "%s|exists=>static|missing=>failed" % SS.key, ok, where=SS.span, detail="no rule: existing file -> set_static, missing -> set_failed")
         common.not_reach(ctx, "R11.4", "%s|no-rule-mutates-nothing" % SS.key, SS, [none_arm], muts + forks, "the no-rule branch reaches no mutator and no fork", "the no-rule branch touches the filesystem")
 
-    dirt.forget_missing_target(ctx, "R11.5")
+    forget_missing_target(ctx, "R11.5")
 
     # ---- R11.6
+    # The value is followed from the stat in the dispatcher to the comparison in record_new_state by what it *is*
+    # (C04.recorder_roles): no parameter positions, no variable names, whether the stat is a helper call or written
+    # out in place, whether record_new_state takes it as an argument of its own or as a field of a parameter struct.
     J = anchors.job_start(prog)
     jba = BA.of(J)
-    ts = jba.calls(r"builder::try_stat")
-    cbs = [i for i in jba.all_calls() if re.search(r"ops::function::Fn(Mut|Once)?::call", J.blocks[i]["term"].get("callee", "")) and J.blocks[i]["term"].get("rkind", "virtual") == "virtual"]
-    ssc = jba.calls(re.escape(SS.key))
-    ok = False
-    if ts and cbs and ssc:
-        tl = taint(J, seeds={J.blocks[ts[0]]["term"]["dest"]["l"]}, mode="direct")
-        ok = jba.dominates(ts[0], cbs[0]) and all(op_local(J.blocks[s]["term"]["args"][-1]) in tl for s in ssc) and \
-            _arg_in(jba, J.blocks[ts[0]]["term"]["args"][0], taint(J, src_place=lambda p: place_fields(p)[-1:] == ["builder::BuildJob.t"], mode="direct"))
-    ctx.ob("R11.6", "%s|pre-build-stat-before-verdict" % J.key, ok, where=ctx.where(J, ts[0]) if ts else J.span,
-           detail="try_stat(t) precedes the callback and is handed to start_self" if ok else "the pre-build stat is missing, late, or not the one passed on")
     R = anchors.record_new_state(prog)
     rba = BA.of(R)
-    mods = rba.calls(r"std::fs::Metadata::modified")
-    ok = False
-    if mods:
-        roots = set()
-        for m in mods:
-            sl, _, _ = backward_direct(R, op_local(R.blocks[m]["term"]["args"][0]))
-            roots |= {l for l in sl if 1 <= l <= R.arg_count}
-        ok = 4 in roots
-    ctx.ob("R11.6", "%s|direct-mod-test-reads-before_t" % R.key, ok, where=R.span, detail="the modification-time comparison uses the `before_t` parameter" if ok else "direct-modification test does not use the pre-build stat")
     RR = anchors.result_recorder(prog)
-    rrba = BA.of(RR)
-    rn = rrba.calls(re.escape(R.key))
-    ok = False
-    if rn:
-        from core import upvar_index
-        a = RR.blocks[rn[0]]["term"]["args"][3]
-        sl, _, _ = backward_direct(RR, op_local(a))
-        names = set()
-        for l in sl:
-            for d in rrba.defs.get(l, []):
-                if d[0] == "stmt":
-                    for p in rvalue_places(d[3]):
-                        u = upvar_index(p)
-                        if u:
-                            names.add(u[1])
-        cs = closure_sites(SS, RR.key)
-        ok = "before_t" in names or (cs and any(SS.local_name(op_local(o)) == "before_t" for o in cs[0][4] if op_local(o) is not None))
-        # structural: the upvar passed is the one captured from start_self's 5th parameter
-        if cs:
-            idx = [n for n, o in enumerate(cs[0][4]) if op_local(o) == 5]
-            ok = bool(idx)
-    ctx.ob("R11.6", "%s|before_t-handed-to-recorder" % SS.key, bool(ok), where=SS.span, detail="start_self's before_t parameter is captured by the result recorder")
+    roles = recorder_roles(prog, R, SS, J, RR)
+    ts = pre_verdict_stats(prog, J)
+    cbs = [i for i in jba.all_calls() if re.search(r"ops::function::Fn(Mut|Once)?::call", J.blocks[i]["term"].get("callee", "")) and J.blocks[i]["term"].get("rkind", "virtual") == "virtual"]
+    ssc = jba.calls(re.escape(SS.key))
+    ok = bool(ts) and bool(cbs) and bool(ssc) and all(any(jba.dominates(x, c) for x in ts) for c in cbs) and bool(roles["_ss_params_before_t"])
+    ctx.ob("R11.6", "%s|pre-build-stat-before-verdict" % J.key, ok, where=ctx.where(J, ts[0]) if ts else J.span,
+           detail="the stat of the target precedes the callback and is handed to start_self" if ok else "the pre-build stat is missing, late, or not the one passed on")
+    mods = rba.calls(r"std::fs::Metadata::modified")
+    ok = any(common.role_roots(R, op_local(R.blocks[m]["term"]["args"][0]), roles["before_t"]) for m in mods) if roles["before_t"] else False
+    ctx.ob("R11.6", "%s|direct-mod-test-reads-before_t" % R.key, ok, where=R.span, detail="the modification-time comparison uses the pre-build stat handed down from BuildJob::start" if ok else "direct-modification test does not use the pre-build stat")
+    ok = bool(roles["_up_before_t"]) and bool(roles["before_t"])
+    ctx.ob("R11.6", "%s|before_t-handed-to-recorder" % SS.key, bool(ok), where=SS.span, detail="start_self's pre-build stat parameter is captured by the result recorder and passed to record_new_state")
 
     # ---- R11.7
     roots = [r"@bin::ood::run", r"@bin::targets::run", r"@bin::sources::run", r"@bin::stamp::run", r"@bin::always::run", r"@bin::ifcreate::run", r"@bin::whichdo::run", r"@bin::log::run"]
-    allowed = {"state::ProcessState::init": "creates .redo/ and removes a half-created db.sqlite3", "state::LockManager::open": "opens/creates .redo/locks",
-               "env::Env::make_redo_links_dir": "symlinks to the redo binary inside a fresh tempfile::tempdir(), not a project path"}
+    allowed = {"state::ProcessState::init": "creates .redo/ and removes a half-created db.sqlite3", "state::LockManager::open": "opens/creates .redo/locks"}
+    # A third exception is decided per call site by what is created, not by which function does it: links to the redo
+    # binary inside a directory the same body has just made with tempfile::tempdir() (today Env::make_redo_links_dir,
+    # equally when that helper is inlined into Env::init or split further) are not project files.
     for r in roots:
         b = prog.one(r)
         reach = ctx.cg.reachable([b.key], indirect=True, stop=frozenset(["helpers::unlink"]))
@@ -250,7 +228,7 @@ def run(ctx):
             for i in BA.of(bb).all_calls():
                 if is_mutator_call(bb.blocks[i]["term"]):
                     found.append((k, i))
-        bad = [(k, i) for k, i in found if k not in allowed]
+        bad = [(k, i) for k, i in found if k not in allowed and not in_fresh_tempdir(prog.bodies[k], i)]
         ctx.ob("R11.7", "%s|no-project-file-mutation" % b.key, not bad, where=", ".join(ctx.where(prog.bodies[k], i) for k, i in bad[:3]),
                detail="mutators reachable only in %s (%d bodies searched)" % (sorted({k for k, _ in found}), len(reach)) if not bad else "filesystem mutator reachable: %s" % sorted({k for k, _ in bad}))
     # positive control: the same query from redo-ifchange must find the known mutators
@@ -265,3 +243,90 @@ def _arg_in(ba, a, tset):
     if l is None:
         return False
     return l in tset or any(x in tset for x in ba.ref_chain(l)) or bool(backward_direct(ba.b, l)[0] & tset)
+
+
+def _mentions_named(D, t, named):
+    ba = BA.of(D)
+    for a in t["args"]:
+        c = op_const(a)
+        if c and c.get("named") == named:
+            return True
+        l = op_local(a)
+        if l is None:
+            continue
+        for x in ba.ref_chain(l):
+            dd = ba.single_def(x)
+            if dd and dd[0] == "stmt":
+                for c in __import__("core").rvalue_consts(dd[3]):
+                    if c.get("named") == named:
+                        return True
+    return False
+
+
+def forget_missing_target(ctx, rid):
+    """R11.5: a generated target that vanished is forgotten (is_generated := false, saved), only when the new stamp
+    is MISSING. (Local generalisation of rules.dirt.forget_missing_target, which recognises the MISSING test only as
+    `newstamp == Stamp::MISSING`: here the test may equally be `!=` with the arms swapped, `is_missing()`, negated,
+    or held in a local; the edge that must dominate the write is the one on which the stamp *is* MISSING.)"""
+    prog = ctx.prog
+    D = anchors.dirtiness(prog)
+    ba = BA.of(D)
+    w = [x for x in field_writes(D, r"state::File\.is_generated")]
+    saves = ba.calls(r"state::File::save")
+    ok = False
+    det = "no write of is_generated in the dirtiness routine"
+    if w:
+        # edges on which the freshly read stamp is MISSING
+        miss_edges = []
+        for (sw, t_t, f_t, cbb) in common.switches_on_call_value(D, r".*core::cmp::PartialEq.*::eq"):
+            if _mentions_named(D, D.blocks[cbb]["term"], "state::Stamp::MISSING"):
+                miss_edges.append((sw, t_t))
+        for (sw, t_t, f_t, cbb) in common.switches_on_call_value(D, r".*core::cmp::PartialEq.*::ne"):
+            if _mentions_named(D, D.blocks[cbb]["term"], "state::Stamp::MISSING"):
+                miss_edges.append((sw, f_t))
+        for (sw, t_t, f_t, cbb) in common.switches_on_call_value(D, r"state::Stamp::is_missing"):
+            miss_edges.append((sw, t_t))
+        gen_edges = [(sw, t_t) for (sw, t_t, f_t, cbb) in common.switches_on_call_value(D, r"state::File::is_generated")]
+        res = []
+        for (wb, j, st) in w:
+            c = op_const(st["rv"].get("op")) if st["rv"]["k"] == "use" else None
+            is_false = c is not None and c.get("bool") is False
+            dom = any(ba.edge_dominates(e, wb) for e in miss_edges)
+            saved = bool(saves) and ba.path([wb], ba.returns(), avoid=frozenset(saves), incl=True) is None
+            gen = any(ba.edge_dominates(e, wb) for e in gen_edges)
+            res.append((is_false, dom, gen, saved))
+        ok = all(all(r) for r in res)
+        bad = [r for r in res if not all(r)]
+        det = "is_generated := false is saved, only for a generated file whose new stamp is MISSING" if ok else \
+            "forgetting a vanished target is not (false=%s, under MISSING=%s, under is_generated=%s, saved=%s)" % bad[0]
+    ctx.ob(rid, "%s|vanished-target-forgotten" % D.key, ok, where=ctx.where(D, w[0][0]) if w else D.span, detail=det)
+
+
+TEMPDIR = re.compile(r"tempfile::(dir::)?tempdir|tempfile::(dir::)?TempDir::new")
+INSIDE = re.compile(r"tempfile::(dir::)?TempDir::path|std::path::Path::join|std::path::PathBuf::push")
+
+
+def mutated_path_operands(t):
+    """Operands of a filesystem-mutator call that name what is created / changed / removed."""
+    ps = callee_paths(t)
+    a = t["args"]
+    if any(re.fullmatch(r"std::os::unix::fs::symlink|std::fs::(hard_link|soft_link)", p) for p in ps):
+        return a[1:2]
+    if any(re.fullmatch(r"std::fs::(rename|copy)", p) for p in ps):
+        return a[0:2]
+    if any(p == "std::io::copy::copy" or "tempfile" in p for p in ps):
+        return []
+    return a[0:1]
+
+
+def in_fresh_tempdir(body, i):
+    """Does mutator call `i` of `body` touch only paths inside a directory that this body has itself just created
+    with tempfile::tempdir() (the path operand is a direct alias of TempDir::path(), possibly joined / pushed)?"""
+    ba = BA.of(body)
+    srcs = ba.calls(TEMPDIR)
+    if not srcs:
+        return False
+    tl = taint(body, seeds={body.blocks[c]["term"]["dest"]["l"] for c in srcs}, mode="direct", through=INSIDE)
+    ok = common.in_set(body, tl)
+    ops = mutated_path_operands(body.blocks[i]["term"])
+    return bool(ops) and all(op_local(o) is not None and ok(op_local(o)) for o in ops)
